@@ -21,7 +21,7 @@ N_RANDOM = {"quick": 20000, "thorough": 300000}
 N_GLOBAL = {"quick": 2000, "thorough": 20000}
 RULE = ("part A (exhaustive): every history of length 1..L (L=5 quick, 6 thorough) over the alphabet {8 register forms: "
         "(A) sub/exact, (B) sub/exact, (A) prio 1, (B) prio 1, attr='tag', metaclass=Meta} u {resolve A,B,C,E,M} on a fresh "
-        "TypeRegistry(cache=True) (class hierarchy A, B(A), C(B), E(A, has attr), M(metaclass Meta)); part B: random histories "
+        "TypeRegistry(cache=True) (class hierarchy A, B(A), C(B), E(A, has attr), M(metaclass Meta); the random part adds F(A) and G whose attr value is falsy); part B: random histories "
         "of length <= 14 over the full alphabet (class tuples, priorities -1..2, attr+class and metaclass+class conjunctions, "
         "cache on/off, a base registry receiving registrations before and in between); part C: histories on the library's global transformer and encoder registries with fresh "
         "classes per history, reads through TypeTransformer.registry.resolve, type_transform, a plain-typed Schema field "
@@ -56,6 +56,12 @@ def _classes():
     class E(A):
         tag = 1
 
+    class F(A):
+        tag = 0       # the attribute exists, its value is falsy
+
+    class G:
+        tag = None    # (the same outside the A hierarchy)
+
     class M(metaclass=Meta):
         pass
 
@@ -71,7 +77,7 @@ def _classes():
         pass
 
     S.register(V)
-    return {"A": A, "B": B, "C": C, "D": D, "E": E, "M": M, "X": X, "S": S, "V": V}
+    return {"A": A, "B": B, "C": C, "D": D, "E": E, "F": F, "G": G, "M": M, "X": X, "S": S, "V": V}
 
 
 # reduced alphabet for the exhaustive part: ("reg", classes, allow_subclasses, priority, attr, metaclass) | ("res", cls)
@@ -112,13 +118,13 @@ def setup(ctx):
 
 def gen_op(rng):
     if rng.random() < 0.5:
-        return ("res", rng.choice(["A", "B", "C", "D", "E", "M", "X", "V", "V", "S"]))
+        return ("res", rng.choice(["A", "B", "C", "D", "E", "F", "F", "G", "M", "X", "V", "V", "S"]))
     r = rng.random()
     classes = ()
     attr = None
     meta = False
     if r < 0.7:
-        classes = tuple(rng.sample(["A", "B", "C", "D", "E", "M", "X", "S", "S", "V"], rng.choice([1, 1, 1, 2])))
+        classes = tuple(rng.sample(["A", "B", "C", "D", "E", "F", "M", "X", "S", "S", "V"], rng.choice([1, 1, 1, 2])))
     if r >= 0.7 or rng.random() < 0.15:
         if rng.random() < 0.5:
             attr = "tag"
